@@ -279,3 +279,21 @@ pub fn same_pattern<T, U>(a: &CscMatrix<T>, b: &CscMatrix<U>) -> bool {
     }
     true
 }
+
+/// Builds a `CompositeCone<T>` whose cone list lives in a STACK array instead of a heap buffer.
+/// CBMC does not propagate constants through structs/enums stored in heap objects (they are moved
+/// there byte-wise), so with the ordinary constructor every `cone.numel()` / enum dispatch is symbolic
+/// for the symbolic executor and every loop over a cone unwinds to the bound; through a typed stack
+/// array the same reads are concrete.  The Vec is fabricated over the array with `from_raw_parts` and
+/// both are wrapped in ManuallyDrop (never deallocated).  The composite itself is built by the hook
+/// `from_cone_vec` (same field computations as `CompositeCone::new`, validated natively by tv_composite).
+#[macro_export]
+macro_rules! stack_composite {
+    ($name:ident, $T:ty, [$($t:expr),* $(,)?]) => {
+        let mut __store = core::mem::ManuallyDrop::new([$(clarabel::verif_hooks::cones::make_cone::<$T>(&$t)),*]);
+        let __n = __store.len();
+        let __v = unsafe { Vec::from_raw_parts(__store.as_mut_ptr(), __n, __n) };
+        #[allow(unused_mut)]
+        let mut $name = core::mem::ManuallyDrop::new(clarabel::verif_hooks::cones::verif_hooks_cc::from_cone_vec(__v));
+    };
+}
